@@ -631,7 +631,7 @@ def splice(body, contract, applied):
     nloop_dirs = set()
     degraded = []
     for idx, (kind, arg, text) in enumerate(contract.directives):
-        if kind in ('subst', 'rule', 'closure'):
+        if kind in ('subst', 'rule', 'closure', 'stubonly'):
             continue
         if kind == 'foriter':
             k, nm = arg.split()
@@ -881,6 +881,14 @@ def extract_type(kind, name, relpath, opts, info):
                 raise GenError('struct %s: template asks for derived Clone but source derives %s' % (name, derives))
             out.append('impl Clone for %s { #[verifier::external_body] fn clone(&self) -> (r: Self) ensures r == *self { unimplemented!() } }' % name)
             info['assumptions'].append('derive(Clone) on %s is structural (r == *self)' % name)
+        if 'partialeqspec' in opts:
+            # only for structs whose fields are integers / fixed-size arrays (value types: spec equality == element-wise equality)
+            if 'PartialEq' not in derives:
+                raise GenError('struct %s: template asks for derived PartialEq but source derives %s' % (name, derives))
+            out.append('impl PartialEqSpecImpl<%s> for %s { open spec fn obeys_eq_spec() -> bool { true } open spec fn eq_spec(&self, o: &%s) -> bool { *self == *o } }' % (name, name, name))
+            out.append('impl PartialEq for %s { #[verifier::external_body] fn eq(&self, o: &%s) -> (r: bool) { unimplemented!() } }' % (name, name))
+            out.append('impl Eq for %s {}' % name)
+            info['assumptions'].append('derive(PartialEq) on %s is structural (field-wise equality of value-type fields)' % name)
         if 'default' in opts:
             if 'Default' not in derives:
                 raise GenError('struct %s: template asks for derived Default but source derives %s' % (name, derives))
@@ -1015,6 +1023,13 @@ def emit_fn(contract, verified, info, key_override=None, skip_sigcheck_name=None
            'contract': contract.origin, 'verified_here': verified}
     if not verified:
         info['stubs'].append(rec)
+        # @stubonly: clauses that are ASSUMED where the function is called but are not part of what its owner unit proves
+        # (used for one thing: "the Ok/Err outcome of a pure function is a function of its input", named by an
+        # uninterpreted spec function so that callers can state completeness relative to it)
+        extra = ''.join(t for k, a, t in contract.directives if k == 'stubonly')
+        if extra.strip():
+            head = head.rstrip('\n') + '\n' + extra.rstrip('\n')
+            info['assumptions'].append('stub-only clause on %s: %s' % (contract.key, ' '.join(extra.split())[:200]))
         return '#[verifier::external_body]\n' + head + '\n{ unimplemented!() }\n'
     body = strip_comments(item.body)
     rec['body_sha256'] = hashlib.sha256(norm_ws(body).encode()).hexdigest()[:16]
@@ -1104,6 +1119,19 @@ def expand(unit, db=None, outdir=None, variant=None):
             elif s.startswith('//@constbytes '):
                 m = re.match(r'//@constbytes\s+(\w+)\s+@\s+(\S+)\s*$', s)
                 lines.append(const_bytes(m.group(1), m.group(2), info))
+            elif s.startswith('//@onlyonce '):
+                # a mechanical source fact an assumed contract relies on: the text occurs exactly once under the directory
+                m = re.match(r'//@onlyonce\s+`(.*)`\s+in\s+(\S+)\s*$', s)
+                needle, sub = m.group(1), m.group(2)
+                cnt = 0
+                for root, _, files in os.walk(os.path.join(REPO, sub)):
+                    for fn_ in files:
+                        if fn_.endswith('.rs'):
+                            cnt += strip_comments(open(os.path.join(root, fn_)).read()).count(needle)
+                if cnt != 1:
+                    raise GenError('unit %s: `%s` occurs %d times under %s (an assumed contract relies on exactly one occurrence)' % (unit, needle, cnt, sub))
+                info['assumptions'].append('source fact checked on every run: `%s` occurs exactly once under %s' % (needle, sub))
+                lines.append('')
             elif s.startswith('//@stubrest '):
                 owner = s.split(None, 1)[1].strip()
                 pending_rest.append((len(lines), owner))
